@@ -50,6 +50,18 @@ def load_known():
 
 
 def match_known(prop, item: Item, known):
+    # a bounded class 'a+b' says that the listed deviations a AND b are both needed to explain the case: it is known exactly
+    # when each of them is a listed finding (for the same run)
+    head, _, cls = item.id.rpartition('/')
+    if '+' in cls and item.kind == 'B':
+        parts = []
+        for part in cls.split('+'):
+            sub = Item(id=f'{head}/{part}', kind='B', status=item.status, note=item.note, witness=item.witness)
+            k = match_known(prop, sub, known)
+            if k is None:
+                return None
+            parts.append(k)
+        return {'property': prop, 'status': 'known', 'what': ' AND '.join(k.get('what', '')[:160] for k in parts)}
     for k in known:
         if k.get('status') != 'known' or k.get('property') != prop:
             continue
